@@ -26,7 +26,8 @@ fn universe(k: &str) -> Vec<(&'static str, usize)> {
 }
 const KINDS: [&str; 10] = ["f64", "f64z", "u8", "i64", "r64", "string", "bool", "tuple", "set", "setperm"];
 const BINOPS: [&str; 4] = ["∪", "∩", "∖", "Δ"];
-const RELS: [&str; 4] = ["⊆", "⊇", "⊊", "⊋"];
+/// the two proper relations have a second documented spelling each (the alias glyphs of the grammar)
+const RELS: [&str; 6] = ["⊆", "⊇", "⊊", "⊋", "⊂", "⊃"];
 
 /// normalised element identity: -0.0 -> 0.0, sets -> their normalised element lists
 fn norm(c: &CVal) -> CVal {
@@ -255,7 +256,7 @@ impl Prop for C14 {
             match s.eval(&q) { Ev::Ok(CVal::S(_, Sc::B(g))) => if g != want.contains(&id) { return Outcome::violated("membership-wrong", format!("{} with a={} b={} gave {} although {} evaluates to {}", q, va.show(), vb.show(), g, src, v.show())); }, Ev::Panic(p) => return Outcome::violated("panic-escaped", p), _ => {} }
           }
         } else {
-          let want = match op { "⊆" => ia.is_subset(&ib), "⊇" => ia.is_superset(&ib), "⊊" => ia.is_subset(&ib) && ia != ib, _ => ia.is_superset(&ib) && ia != ib };
+          let want = match op { "⊆" => ia.is_subset(&ib), "⊇" => ia.is_superset(&ib), "⊊" | "⊂" => ia.is_subset(&ib) && ia != ib, _ => ia.is_superset(&ib) && ia != ib };
           match v { CVal::S(_, Sc::B(g)) => if g != want { return Outcome::violated("set-relation-wrong", format!("{} with a={} b={} gave {} expected {}", src, va.show(), vb.show(), g, want)); }, o => return Outcome::violated("not-a-bool", format!("{} gave {}", src, o.show())) }
         }
         if both_nonempty { Outcome::held() } else { Outcome::trivial() }
